@@ -72,7 +72,7 @@ class Parser(parsmod.Visitor[sql.Selectable, sql.ColumnElement]):  # pylint: dis
         function.Max: func.max,
         function.Sum: func.sum,
         function.Year: func.year,
-        function.Abs: operator.abs,
+        function.Abs: func.abs,
         function.Ceil: func.ceil,
         function.Floor: func.floor,
     }
